@@ -89,6 +89,7 @@ def states():
     # the API defines SetIamPolicy itself, the YAML configures only the *other* IAM RPCs: nothing is overridden
     out.append(dict(id='iam-own-rpc-not-configured', listed=[IAM], ruled=['GetIamPolicy', 'TestIamPermissions'], own_iam=True, legacy=False))
     out.append(dict(id='iam-own-rpc-only-one-configured', listed=[IAM, OPS], ruled=['SetIamPolicy', 'GetOperation'], own_iam=True, legacy=False))
+    out.append(dict(id='iam-override-by-second-service', listed=[OPS, IAM, LOC], ruled=list(CANON), own_iam=True, own_svc='Vault', legacy=False))
     out.append(dict(id='legacy-add-iam-methods', listed=[], ruled=[], own_iam=False, legacy=True))
     out.append(dict(id='legacy-add-iam-methods+iam-mixin', listed=[IAM], ruled=BY_API[IAM], own_iam=False, legacy=True))
     out.append(dict(id='no-yaml', listed=None, ruled=[], own_iam=False, legacy=False))
@@ -116,10 +117,16 @@ def build(st, transport):
     msgs = [message('Book', [field('name', 1, 'string')]), message('GetBookRequest', [field('name', 1, 'string')])]
     meths = [method('GetBook', Q('GetBookRequest'), Q('Book'), http=('get', '/v1/{name=books/*}'))]
     mods = ['google.iam.v1.iam_policy_pb2']
-    if st['own_iam']:
-        meths.append(method('SetIamPolicy', '.google.iam.v1.SetIamPolicyRequest', '.google.iam.v1.Policy',
-                            http=('post', '/v1/{resource=books/*}:setIamPolicy', '*')))
-    f = file('acme/mix/v1/mix.proto', P, messages=msgs, services=[service('Lib', meths)])
+    own = method('SetIamPolicy', '.google.iam.v1.SetIamPolicyRequest', '.google.iam.v1.Policy',
+                 http=('post', '/v1/{resource=books/*}:setIamPolicy', '*'))
+    svcs = [service('Lib', meths)]
+    if st['own_iam'] and st.get('own_svc', 'Lib') == 'Lib':
+        meths.append(own)
+        svcs = [service('Lib', meths)]
+    elif st['own_iam']:
+        # the RPC is declared by a *second* service, after one that declares nothing of the kind
+        svcs.append(service(st['own_svc'], [method('GetVaultBook', Q('GetBookRequest'), Q('Book'), http=('get', '/v1/{name=vaults/*}')), own]))
+    f = file('acme/mix/v1/mix.proto', P, messages=msgs, services=svcs)
     param = f'transport={transport},autogen-snippets=false'
     of = None
     if st['listed'] is not None:
@@ -137,7 +144,8 @@ def make_job(st, transport):
     return dict(id=f'{st["id"]}|{transport}', req=req.SerializeToString(), opt_files=of, probe='mc.probes.mixins',
                 probe_args=dict(package=names.import_package(P), transport=transport, canon={k: list(v) for k, v in CANON.items()},
                                 rules={k: [v[0], v[1], v[2], [list(x) for x in v[3]]] for k, v in RULES.items()}, values=VALUES,
-                                legacy=st['legacy'], own_iam=st['own_iam'], ruled=st['ruled']),
+                                legacy=st['legacy'], own_iam=st['own_iam'], ruled=st['ruled'], service=st.get('own_svc', 'Lib'),
+                                own_path=f'/{P}.{st.get("own_svc", "Lib")}/SetIamPolicy'),
                 _st=st, _transport=transport)
 
 
